@@ -95,6 +95,53 @@ theorem backoff_reset_counterexample :
       specRun exCfg3 Spec.empty exEvs3 = [.pass, .pass, .drop, .drop, .drop] := by
   decide
 
+/-- **large_response_weight.** Counting a response of `len` bytes is exactly the same as `⌊len / est⌋`
+further query events of the same client (one per loop iteration), so the window-log theorem covers
+response weighting: a large response consumes that many units of the subnet's budget. -/
+theorem large_response_weight (c : Cfg) (s : St) (now tick : Int) (a : Addr) (q : Nat) (len : Nat) :
+    countResponses c s (loopTimes now tick (respWeight c.est len)) a q =
+      runState c s ((loopTimes now tick (len / c.est)).map (fun t => ⟨t, a, q⟩)) := by
+  unfold countResponses respWeight
+  generalize loopTimes now tick (len / c.est) = ts
+  induction ts generalizing s with
+  | nil => rfl
+  | cons t r ih => simp only [List.foldl, List.map, runState]; exact ih _
+
+example : (loopTimes 100 2 (respWeight 100 350)).length = 3 := by decide
+
+/-- **profile_limit_replaces_global.** For a request attributed to a profile whose limiter covers the
+client (no subnets configured, or the address inside one of them), on a rate-limited protocol: the
+global limiter's state is untouched and the request is dropped iff the profile's own one-second
+counter says so. -/
+theorem profile_limit_replaces_global (c : Cfg) (g : St) (p : ProfLim) (now tick : Int) (a : Addr)
+    (q : Nat) (rl : Option Nat)
+    (hcov : p.subnets.isEmpty = true ∨ p.subnets.any (fun s => s.contains a) = true) :
+    (serve c true { glob := g, prof := some p } now tick a q rl).1.glob = g ∧
+    ((serve c true { glob := g, prof := some p } now tick a q rl).2 = .dropped ↔
+      (p.ctr.add now).2 = true) := by
+  have hchk : p.check now a =
+      ({ p with ctr := (p.ctr.add now).1 }, if (p.ctr.add now).2 then .drop else .pass) := by
+    unfold ProfLim.check
+    rcases hcov with h | h <;> simp [h]
+  unfold serve
+  simp only [Bool.not_true, Bool.false_eq_true, if_false, hchk]
+  cases hab : (p.ctr.add now).2 <;> cases rl <;> simp
+
+/-- **profile_limit_uses_global_outside_subnets.** Outside the profile's configured subnets the profile
+limiter is neither consulted nor charged: the outcome is the global limiter's. -/
+theorem profile_outside_subnets_uses_global (c : Cfg) (g : St) (p : ProfLim) (now tick : Int)
+    (a : Addr) (q : Nat) (rl : Option Nat)
+    (hne : p.subnets.isEmpty = false) (hout : p.subnets.any (fun s => s.contains a) = false) :
+    (serve c true { glob := g, prof := some p } now tick a q rl).1.prof = some p ∧
+    (serve c true { glob := g, prof := some p } now tick a q rl).2 =
+      (serve c true { glob := g, prof := none } now tick a q rl).2 := by
+  have hchk : p.check now a = (p, .useGlobal) := by
+    unfold ProfLim.check; simp [hne, hout]
+  unfold serve
+  simp only [Bool.not_true, Bool.false_eq_true, if_false, hchk]
+  rcases h : isRateLimited c g now a q with ⟨g', v⟩
+  cases v <;> cases rl <;> simp
+
 /-- **refuse_any_all.** With ANY refusal configured every ANY query is dropped, allowlisted or not. -/
 theorem refuse_any_all (c : Cfg) (s : St) (now : Int) (a : Addr) (h : c.refuseAny = true) :
     (isRateLimited c s now a qtypeANY).2 = .drop := by
@@ -143,6 +190,9 @@ end Agd.Ratelimit
 #print axioms Agd.Ratelimit.ring_refines_history
 #print axioms Agd.Ratelimit.backoff_is_window_log_partial
 #print axioms Agd.Ratelimit.backoff_reset_counterexample
+#print axioms Agd.Ratelimit.large_response_weight
+#print axioms Agd.Ratelimit.profile_limit_replaces_global
+#print axioms Agd.Ratelimit.profile_outside_subnets_uses_global
 #print axioms Agd.Ratelimit.refuse_any_all
 #print axioms Agd.Ratelimit.allowlisted_never_dropped
 #print axioms Agd.Ratelimit.subnet_isolation
